@@ -23,7 +23,7 @@ structure WState (K : Type) where
   iter : Nat
   mean : K
   m2 : K
-  deriving Repr
+  deriving Repr, DecidableEq
 
 /-- `{"iter", "mean"[a], "mean"[b], "sum_diff_outer"[a,b]}` for one pair of components.
 Also used as the accumulator `(n_iter, mean_est, covar_est)` of `finalize`; `nan` records
@@ -35,7 +35,7 @@ structure CState (K : Type) where
   meanB : K
   c : K
   nan : Bool := false
-  deriving Repr
+  deriving Repr, DecidableEq
 
 section
 variable {K : Type} [Zero K] [One K] [Add K] [Sub K] [Mul K] [Div K] [NatCast K]
